@@ -52,6 +52,14 @@ def run(pid, tier, seed):
     if "MaskIsWindow" not in rm.violated:
         raise vlib.Inconclusive("vacuity guard: the pinned top-word mask rule should violate MaskIsWindow")
     rep.notes.append("vacuity guard: ReplayMask with the pinned msbMask rule violates MaskIsWindow (W=7, B=4) as expected")
+    if pid == "C04":
+        # unbounded-depth complement (a note, never a verdict): Apalache discharges the inductive invariant of
+        # ReplayMask (mask = accepted numbers inside the window) at W=7, B=4, Max=40, and refutes it for the pinned rule
+        ind = {"base": vlib.run_apalache("replay", "ReplayMaskInd", ["--cinit=ConstInit", "--init=Init", "--inv=IndInv", "--length=0"]),
+               "step": vlib.run_apalache("replay", "ReplayMaskInd", ["--cinit=ConstInit", "--init=IndInit", "--inv=IndInv", "--length=1"]),
+               "step_pinned_rule": vlib.run_apalache("replay", "ReplayMaskInd", ["--cinit=ConstInitPinned", "--init=IndInit", "--inv=IndInv", "--length=1"])}
+        rep.extra["apalache_inductive_invariant_ReplayMask"] = ind
+        rep.notes.append("Apalache, ReplayMaskInd.IndInv: base %(base)s, inductive step %(step)s, step with the pinned top-word rule %(step_pinned_rule)s (expected: ok, ok, error)" % ind)
     d = vlib.scratch("graph-")
     dot = os.path.join(d, "g.dot")
     mc_cfg = "MC_Replay.cfg" if tier == "quick" else "MC_ReplayBig.cfg"
